@@ -139,6 +139,7 @@ func main() {
 		Rule: "stream chain: random histories (genesis, then block / revert / restart-with-app-0..3-ahead) over a real ABIHandler+statemachine.Executer+pebble, " +
 			"blocks of 0-8 scripted transactions (set/delete/overwrite over 3 stores x 8 keys, nested ctx/store snapshots, revertible/unrevertible events, hooks, success or failure); " +
 			"stream directed: one minimal history per clause / suspected defect; stream ref39: reference root vs smt.Trie. " +
+			"stream crash (fault enumeration, exhaustive per scenario): power loss at every mutating FS call (strict in-memory FS) inside ABIHandler.Commit (state-changing / key-deleting block), Revert and the Init rollback, then reopen + Init with the engine's tip; non-trivial key = (scenario kind, FS call class at the crash boundary, where the application was after the crash, engine choice). " +
 			"A transaction is non-trivial under the key (fails?, feature class, changed state?, deleted a committed key?, re-set after delete?, overwrote?, event kinds, hooks); " +
 			"blocks, reverts (added/deleted/updated keys) and restarts (blocks ahead, reopen) have their own keys",
 		Assumptions: []string{
@@ -149,6 +150,7 @@ func main() {
 			"restart = new ABIHandler and Executer over the same pebble DB (optionally closed and reopened on the same in-memory FS); the engine's tip is the last block the harness counts as persisted by the engine",
 			"after an engine-style Revert is rejected for a root mismatch the harness repeats the Revert without ExpectedStateRoot only to keep observing the state DB; restarts are skipped afterwards",
 			"Store.Iterate/Range results are only counted against Get (they are property C12's subject)",
+			"stream crash: pebble's batch+WAL atomicity and the strict MemFS power-loss model (SetIgnoreSyncs/ResetToSyncedState) are trusted; the engine's tip after a crash inside Commit of block h is h-1 (the engine writes its batch after labi.Commit returns), also h when the call completed; after a crash inside Revert the engine tip tried is the one at the height the application records (an application that durably reverted before the engine removed its block is behind the engine, which Init does not promise to repair: counted only)",
 		},
 	}, func(c *mon.Ctx) {
 		c.Cases("ref39", c.N(400, 8000), ref39Case)
@@ -160,6 +162,7 @@ func main() {
 			k.Nontrivial("directed:" + d.Name)
 			report(k, d.Name, d.Plan, out)
 		})
+		c.Cases("crash", c.N(64, 2400), crashCase)
 		c.Cases("chain", c.N(4800, 70000), func(k *mon.Case) {
 			p, mode := genPlan(rand.New(rand.NewSource(k.R.Int63())), c.N(8, 12))
 			out := runPlan(p)
